@@ -139,6 +139,19 @@ pub fn suite_c13(ctx: &mut Ctx) {
                     }
                 }
             }
+            // exact scalings into a shorter-fraction regime (ties, 1/4, 3/4 remainders) and the same product plus dust
+            if n >= 7 {
+                let cnt = ctx.q(if n >= 16 { 400 } else { 120 }, if n >= 16 { 8000 } else { 2000 });
+                for (i, &(a, bm, bd, c)) in crate::drive::pow2_shift_cases(ctx, n, es, cnt).iter().enumerate() {
+                    gcall(ctx, t, n, 0, "mul", "o", &[store(n, a), store(n, bm)]);
+                    gcall(ctx, t, n, 0, "div", "o", &[store(n, a), store(n, bd)]);
+                    match i % 3 {
+                        0 => { gcall(ctx, t, n, 0, "mul_add", "m", &[store(n, a), store(n, bm), store(n, c)]); }
+                        1 => { gcall(ctx, t, n, 0, "mul_sub", "m", &[store(n, a), store(n, bm), store(n, c)]); }
+                        _ => { gcall(ctx, t, n, 0, "sub_product", "m", &[store(n, c), store(n, a), store(n, bm)]); }
+                    }
+                }
+            }
             // differential screening (selection only; see screen.rs)
             if n >= 5 {
                 let k = ctx.q(if n >= 24 { 40_000 } else { 8_000 }, if n >= 24 { 2_000_000 } else { 300_000 });
@@ -248,6 +261,14 @@ pub fn suite_c14(ctx: &mut Ctx) {
                     f64s.push((v.to_bits() as i64 + d) as u64);
                     f64s.push(((-v).to_bits() as i64 + d) as u64);
                     f32s.push((((v as f32).to_bits() as i64 + d) as u64) & 0xffff_ffff);
+                }
+                // the tie plus one mantissa bit at a random distance below it
+                let j = ctx.rng.gen_range(0..52);
+                let s = (ctx.rng.gen::<u64>() & 1) << 63;
+                f64s.push((v.to_bits() | (1u64 << j)) ^ s);
+                if (v as f32) as f64 == v {
+                    let j = ctx.rng.gen_range(0..23);
+                    f32s.push((((v as f32).to_bits() | (1u32 << j)) as u64) ^ (s >> 32));
                 }
             }
             for &p in xs.iter().step_by(3) {
